@@ -4,6 +4,7 @@ package c13
 import (
 	"context"
 	"fmt"
+	"github.com/platinummonkey/go-concurrency-limits/patterns/pool"
 	"math"
 	"math/rand/v2"
 	"runtime"
@@ -48,6 +49,8 @@ func kinds(r *rand.Rand, T time.Duration) []blk.Kind {
 		// ordered pools (pool.NewPool): the time-out argument itself, and "give me the default" (<= 0: one second)
 		{Family: "queue", Ordering: "fifo", Backlog: 5, Timeout: T, ViaPool: true, PoolTimeout: T},
 		{Family: "queue", Ordering: []string{"fifo", "lifo"}[r.IntN(2)], Backlog: 5, Timeout: time.Second, ViaPool: true, PoolTimeout: []time.Duration{0, -1, -time.Hour}[r.IntN(3)]},
+		// the time-out left to default (0 = one second), with and without eviction
+		{Family: "queue", Ordering: []string{"fifo", "lifo", ""}[r.IntN(3)], Evict: r.IntN(2) == 0, Backlog: 5, Timeout: time.Second, ZeroTimeoutArg: true},
 	}
 }
 
@@ -63,6 +66,10 @@ func run(t *testing.T, idx int64, r *rand.Rand, kindIdx, cmIdx, amIdx int, exhau
 	if k.ViaPool {
 		T = k.Timeout
 		rt.Count("ordered_pool_cases", 1)
+	}
+	if k.ZeroTimeoutArg {
+		T = k.Timeout
+		rt.Count("default_timeout_cases", 1)
 	}
 	cm := cancelModes[cmIdx]
 	am := arriveModes[amIdx]
@@ -473,6 +480,64 @@ func cancelNewest(t *testing.T, idx int64, r *rand.Rand) {
 	rt.Distinct(fmt.Sprintf("cn|%s|%d|%d", k, n, victim))
 }
 
+// fixedPoolBound: an ordered fixed pool (pool.NewFixedPool, its own inner limiter) with every unit held: a further caller
+// is refused at exactly the pool's time-out (one second when the argument is 0 or negative), whatever the window
+// arguments are.
+func fixedPoolBound(t *testing.T, idx int64, r *rand.Rand) {
+	ord := []pool.Ordering{pool.OrderingFIFO, pool.OrderingLIFO}[r.IntN(2)]
+	tArg := time.Duration(1+r.IntN(5000)) * time.Millisecond
+	want := tArg
+	if r.IntN(3) == 0 {
+		tArg, want = []time.Duration{0, -1}[r.IntN(2)], time.Second
+	}
+	minW := time.Duration(1+r.IntN(400)) * time.Millisecond
+	maxW := minW + time.Duration(r.IntN(400))*time.Millisecond
+	L := 1 + r.IntN(3)
+	var returnedAt time.Duration
+	var done atomic.Bool
+	var ok bool
+	rt.Scenario(fmt.Sprintf("C13/fixed-pool-%v", ord), idx, rt.J{"timeout_argument": tArg.String()})
+	defer rt.ScenarioDone()
+	bubble(t, func(t *testing.T) {
+		fp, err := pool.NewFixedPool("c13", ord, L, -1, minW, maxW, -1, 5, tArg, nil, nil)
+		if err != nil {
+			panic(err)
+		}
+		var held []core.Listener
+		for i := 0; i < L; i++ {
+			l, granted := fp.Acquire(context.Background())
+			if !granted {
+				panic("c13: unit refused")
+			}
+			held = append(held, l)
+		}
+		time.Sleep(time.Duration(r.IntN(1000)) * time.Millisecond)
+		t0 := time.Now()
+		go func() {
+			var l core.Listener
+			l, ok = fp.Acquire(context.Background())
+			returnedAt = time.Since(t0)
+			if ok && l != nil {
+				l.OnIgnore()
+			}
+			done.Store(true)
+		}()
+		time.Sleep(want + 10*time.Second)
+		synctest.Wait()
+		for _, l := range held {
+			l.OnIgnore()
+		}
+		synctest.Wait()
+	})
+	rt.Count("fixed_pool_bound_cases", 1)
+	if !done.Load() || ok || returnedAt != want {
+		rt.Violation(fmt.Sprintf("C13/fixed-pool-%v/blocked-caller-not-refused-at-the-pool-timeout", ord), idx, rt.J{"limit": L, "timeout_argument": tArg.String(), "expected_refusal_after": want.String(),
+			"returned": done.Load(), "granted": ok, "returned_after": returnedAt.String(), "min_window": minW.String(), "max_window": maxW.String()})
+		return
+	}
+	rt.Distinct(fmt.Sprintf("fpb|%v|%v|%v", ord, tArg, maxW))
+}
+
 // cancelAtHandoff: queue limiter with eviction on.  A holder completes before the caller's bound and, while that
 // release is handing the unit over (verif point before the hand-off), the caller's context is cancelled.  Granted or
 // refused - the call returns at that instant, and nothing is left stuck behind it.
@@ -855,7 +920,7 @@ func TestCheck(t *testing.T) {
 		ex      bool
 	}
 	var cells []cell
-	for k := 0; k < 11; k++ {
+	for k := 0; k < 12; k++ {
 		for c := 0; c < 6; c++ {
 			for a := 0; a < 4; a++ {
 				if a > 0 && k != 2 {
@@ -882,6 +947,10 @@ func TestCheck(t *testing.T) {
 		}
 		if idx%36 == 31 {
 			cancelNewest(t, idx, r)
+			return
+		}
+		if idx%36 == 20 {
+			fixedPoolBound(t, idx, r)
 			return
 		}
 		if idx%45 == 7 {
